@@ -1,12 +1,14 @@
 /*@unit
-properties = ["C05"]
+properties = ["C05", "C02"]
 mode = "dfcc"
 enforce = "shift_pin_arcs"
 timeout = 300
 solver = "kissat"
-function = "DetailedPlacer::runShiftsOnCells (place_detailed.cpp), the part that turns every pin of every touched net into the two arcs of the wirelength LP: (cell -> L_net, offset) and (U_net -> cell, -offset) for a cell of the subproblem, (fixed -> L_net, pos + offset) and (U_net -> fixed, -pos - offset) otherwise"
+function = "DetailedPlacer::runShiftsOnCells (place_detailed.cpp), three slices: (constraintArcs) every cell of the subproblem gets exactly the arcs of its ordering constraints - (next -> c, -width) for a movable successor, (c -> fixed, -boundaryBefore) for a fixed predecessor, (fixed -> c, boundaryAfter - width) for a fixed successor; (writeback) EVERY cell of the subproblem receives its LP position, in the placement and in the x model; (pinArcs) the part that turns every pin of every touched net into the two arcs of the wirelength LP: (cell -> L_net, offset) and (U_net -> cell, -offset) for a cell of the subproblem, (fixed -> L_net, pos + offset) and (U_net -> fixed, -pos - offset) otherwise"
 variants = [
   {name = "pinArcs", enforce = "shift_pin_arcs", defines = ["H_ARCS"]},
+  {name = "constraintArcs", enforce = "shift_constraint_arcs", defines = ["H_CONSTR"]},
+  {name = "writeback", enforce = "shift_writeback", defines = ["H_WB"]},
 ]
 assumptions = ["slice of the function body (the loop over nets and pins); the graph (lemon SmartDigraph), the node maps (std::unordered_map) and the arc/cost list are ghost recorders: addArc(a, b) and emplace_back(arc, cost) are CHECKED at the call against the arcs the LP of the half-perimeter wirelength needs, and counted for a ghost (net, pin)",
                "the pin at hand (cell, offset, cell position, membership in the subproblem) is a set of ghost scalars re-chosen arbitrarily in every iteration, so the checks at the calls hold for every pin; IncrNetModel accessors are not inlined here (unit c09_incr_model)",
@@ -89,3 +91,88 @@ text = """GHOST(g_k = 0; g_kc = 0; g_cell_c = nondet_int(); g_off_c = nondet_int
 @*/
 void harness(void) { const int *nets; int n; shift_pin_arcs(nets, n); REACH("end"); }
 #endif
+
+#ifdef H_CONSTR
+int g_ci;                       /* ghost index into cells: its arcs are counted */
+int g_pred, g_next, g_w, g_bb, g_ba; bool g_pred_in, g_next_in;   /* the cell at hand: arbitrary per iteration */
+bool g_seen0, g_seen1, g_seen2; int g_lastkind; int g_exp;
+#undef VERIF_AT
+#define VERIF_AT (_i_c == g_ci)
+#define A0(a, b) ((a) == CELL_NODE(g_next) && (b) == CELL_NODE(c))
+#define A1(a, b) ((a) == CELL_NODE(c) && (b) == fixed)
+#define A2(a, b) ((a) == fixed && (b) == CELL_NODE(c))
+static inline Arc add_carc(bool is0, bool is1, bool is2, bool at) {
+  __CPROVER_assert((is0 && g_next_in && !g_seen0) || (is1 && !g_pred_in && !g_seen1) || (is2 && !g_next_in && !g_seen2), "spec C02: an ordering-constraint arc of the LP is one of (next -> c) for a movable successor, (c -> fixed) for a fixed predecessor, (fixed -> c) for a fixed successor, each at most once per cell");
+  if (is0 && g_next_in && !g_seen0) { g_seen0 = 1; g_lastkind = 0; } else if (is1 && !g_pred_in && !g_seen1) { g_seen1 = 1; g_lastkind = 1; } else { g_seen2 = 1; g_lastkind = 2; }
+  if (at && g_cnt < 4) g_cnt++;
+  return ++g_arcid;
+}
+#undef ADD_ARC
+#define ADD_ARC(a, b) add_carc(A0(a, b), A1(a, b), A2(a, b), VERIF_AT)
+#undef ARC_COST
+#define ARC_COST(A, cost) do { __CPROVER_assert((A) == g_arcid && (cost) == (g_lastkind == 0 ? -g_w : g_lastkind == 1 ? -g_bb : g_ba - g_w), "spec C02: the cost of an ordering-constraint arc is -width / -boundaryBefore / boundaryAfter - width, on the arc just created"); if (VERIF_AT && g_cntc < 4) g_cntc++; } while (0)
+#define CELL_GHOSTS g_pred, g_next, g_w, g_bb, g_ba, g_pred_in, g_next_in, g_seen0, g_seen1, g_seen2, g_lastkind, g_arcid
+void shift_constraint_arcs(const int *cells, int cells_size)
+__CPROVER_requires(0 <= cells_size && cells_size <= PMAX && __CPROVER_is_fresh(cells, cells_size * sizeof(int)) && 0 <= g_ci && g_ci < cells_size && g_cnt == 0 && g_cntc == 0 && g_arcid == 0 && verif_exc == 0)
+/* C02 (the LP contains every ordering constraint, so its solution is a legal placement): the ghost cell got all its arcs, each with its cost */
+__CPROVER_ensures(g_cnt == g_exp && g_cntc == g_exp && 1 <= g_exp && g_exp <= 2)
+__CPROVER_assigns(g_cnt, g_cntc, g_exp, CELL_GHOSTS)
+/*@extract
+file = "src/place_detailed/place_detailed.cpp"
+head = 'void DetailedPlacer::runShiftsOnCells\(const std::vector<int> &cells\)'
+slice_from = 'for \(int c : cells\) \{\s*int pred = '
+slice_to = 'for \(int net : nets\) \{(?=[^}]*?nbNetPins\(net\))'
+nloops = 1
+rewrites = [['cell_set\.count\(next\)', '(g_next_in ? 1u : 0u)', '1+'], ['cell_set\.count\(pred\)', '(g_pred_in ? 1u : 0u)', '1+'],
+            ['cell_nodes\[(\w+)\]', 'CELL_NODE(\1)', '1+'], ['\bg\.addArc\(', 'ADD_ARC(', '1+'], ['constraint_arcs\.emplace_back\(', 'ARC_COST(', '1+'],
+            ['placement_\.cellPred\(c\)', 'g_pred', '1+'], ['placement_\.cellNext\(c\)', 'g_next', '1+'], ['placement_\.cellWidth\(c\)', 'g_w', '1+'],
+            ['placement_\.boundaryBefore\(c\)', 'g_bb', '1+'], ['placement_\.boundaryAfter\(c\)', 'g_ba', '1+']]
+[[loops]]
+ordinal = 1
+contract = """
+__CPROVER_assigns(_i_c, g_cnt, g_cntc, g_exp, CELL_GHOSTS)
+__CPROVER_loop_invariant(0 <= _i_c && _i_c <= cells_size && 0 <= g_arcid && (g_ci >= _i_c ==> (g_cnt == 0 && g_cntc == 0)) && (g_ci < _i_c ==> (g_cnt == g_exp && g_cntc == g_exp && 1 <= g_exp && g_exp <= 2)))
+__CPROVER_decreases(cells_size - _i_c)
+"""
+[[ghosts]]
+after = 'int c = cells\[_i_c\];'
+text = """GHOST(g_pred = nondet_int(); g_next = nondet_int(); g_w = nondet_int(); g_bb = nondet_int(); g_ba = nondet_int(); g_pred_in = nondet_bool(); g_next_in = nondet_bool(); g_seen0 = 0; g_seen1 = 0; g_seen2 = 0; if (VERIF_AT) g_exp = 1 + (g_pred_in ? 0 : 1);) __CPROVER_assume(MAGV(g_w) && MAGV(g_bb) && MAGV(g_ba) && 0 <= c && c <= PMAX && 0 <= g_next && g_next <= PMAX && g_next != c && g_arcid < (1LL << 40)); /* the cell at hand: arbitrary, so the checks hold for EVERY cell */"""
+@*/
+void harness(void) { const int *cells; int n; shift_constraint_arcs(cells, n); REACH("end"); }
+#endif
+
+#ifdef H_WB
+int g_ci; int g_pot_c, g_pot_fixed, g_npins;
+int g_wr, g_up;
+#undef VERIF_AT
+#define VERIF_AT (_i_c == g_ci)
+#define WRITE_X(c, v) do { __CPROVER_assert((v) == g_pot_c - g_pot_fixed, "spec: the position written is the potential of the cell relative to the fixed node"); if (VERIF_AT && g_wr < 4) g_wr++; } while (0)
+#define UPDATE_POS(c, v) do { __CPROVER_assert((v) == g_pot_c - g_pot_fixed, "spec: the x model receives the same position"); if (VERIF_AT && g_up < 4) g_up++; } while (0)
+void shift_writeback(const int *cells, int cells_size)
+__CPROVER_requires(0 <= cells_size && cells_size <= PMAX && __CPROVER_is_fresh(cells, cells_size * sizeof(int)) && 0 <= g_ci && g_ci < cells_size && g_wr == 0 && g_up == 0 && MAGV(g_pot_fixed) && verif_exc == 0)
+/* C02/C05: every cell of the subproblem - connected or not - is moved to its LP position, consistently in the placement and in the x model
+ * (a partial write-back leaves cells where the LP assumed they had moved: overlaps) */
+__CPROVER_ensures(g_wr == 1 && g_up == 1)
+__CPROVER_assigns(g_wr, g_up, g_pot_c, g_npins)
+/*@extract
+file = "src/place_detailed/place_detailed.cpp"
+head = 'void DetailedPlacer::runShiftsOnCells\(const std::vector<int> &cells\)'
+slice_from = 'for \(int c : cells\) \{(?![\s\S]*for \(int c : cells\) \{)'
+nloops = 1
+rewrites = [['ns\.potential\(cell_nodes\[c\]\)', 'g_pot_c', '1+'], ['ns\.potential\(fixed\)', 'g_pot_fixed', '1+'],
+            ['placement_\.cellX_\[c\] = ([^;]*);', 'WRITE_X(c, \1);', '1+'], ['xtopo_\.updateCellPos\(c, ([^;]*)\);', 'UPDATE_POS(c, \1);', '1+'],
+            ['xtopo_\.nbCellPins\(c\)', 'g_npins', '*']]
+[[loops]]
+ordinal = 1
+contract = """
+__CPROVER_assigns(_i_c, g_wr, g_up, g_pot_c, g_npins)
+__CPROVER_loop_invariant(0 <= _i_c && _i_c <= cells_size && (g_ci >= _i_c ==> (g_wr == 0 && g_up == 0)) && (g_ci < _i_c ==> (g_wr == 1 && g_up == 1)))
+__CPROVER_decreases(cells_size - _i_c)
+"""
+[[ghosts]]
+after = 'int c = cells\[_i_c\];'
+text = """GHOST(g_pot_c = nondet_int(); g_npins = nondet_int();) __CPROVER_assume(MAGV(g_pot_c) && 0 <= g_npins);"""
+@*/
+void harness(void) { const int *cells; int n; shift_writeback(cells, n); REACH("end"); }
+#endif
+
